@@ -35,6 +35,7 @@ class Scen:
     f1: list = field(default_factory=list)
     fp: list = field(default_factory=list)     # (lock, 'OLock' ...)
     unw: list = field(default_factory=list)    # threads that run inside a destructor while already unwinding
+    probes: list = field(default_factory=list)  # (tid, op) run after the history, judged on the implementation only
     fuel: int = 8
     npids: int = 0
     nuids: int = 0
@@ -73,6 +74,8 @@ class Scen:
                     o.append(f"p {t} " + op_text(op))
         for t, op in self.hist:
             o.append(f"h {t} " + op_text(op))
+        for t, op in self.probes:
+            o.append(f"q {t} " + op_text(op))
         o.append("end")
         return "\n".join(o)
 
@@ -148,6 +151,8 @@ def op_text(op):
         return s.strip()
     if k in ("gread", "gwrite", "ispoisoned", "clear", "fmt"):
         return f"{k} {op[1]}"
+    if k == "fmtfail":
+        return f"fmtfail {op[1]} {op[2]}"
     return k
 
 
@@ -289,6 +294,8 @@ def run_harness(driver, scens, tag, timeout=600):
                 cur["ctor"][int(c)] = (v == "some")
             elif line.startswith("obs "):
                 cur["obs"].append(line[4:])
+            elif line.startswith("pobs "):
+                cur.setdefault("pobs", []).append(line[5:])
             elif line.startswith("sched "):
                 cur["sched"] = [int(x) for x in line[6:].split()]
             elif line.startswith("bobs "):
